@@ -1011,7 +1011,7 @@ func (interp *Interpreter) cfg(root *node, sc *scope, importPath, pkgName string
 				// A function indexed by a type means an instantiated generic function.
 				c1 := n.child[1]
 				if !c1.isType(sc) {
-					n.typ = t
+					err = n.cfgErrorf("invalid operation: cannot index %s (value of type %s)", n.child[0].name(), t.id())
 					return
 				}
 				var g *node
